@@ -19,7 +19,7 @@ from .. import core, tlc, traceval
 BAD_KINDS = ["pyobject", "pyapply", "pynew", "pyname", "pymodule", "pytuple", "pycomplex", "pybytes", "pystr", "pyint", "pylist", "pydict", "pyunicode", "pylong", "pyfloat", "pybool", "pynone", "unregistered", "unregistered_dotted", "unregistered_prefixed"]
 NAMED = ["pyobject", "pyapply", "pynew", "pyname", "pymodule", "unregistered_dotted"]
 TARGETS = ["sentinel", "canary_class", "os_system", "unimported", "plugin_class"]
-POSITIONS = ["pipeline_item", "lazy_arg", "lazy_nested", "lazyfn_nested", "eager_arg", "type_arg", "logging", "root", "mapkey", "section_value", "merge_value", "tagkey", "second_document", "dupkey", "merge_shadowed"]
+POSITIONS = ["pipeline_item", "lazy_arg", "lazy_nested", "lazyfn_nested", "eager_arg", "type_arg", "logging", "root", "mapkey", "section_value", "merge_value", "tagkey", "second_document", "dupkey", "merge_shadowed", "root_tagged"]
 INVARIANTS = ["OnlyRegistered", "BadIsRejected"]
 
 
@@ -119,6 +119,8 @@ def render(doc, n, marker):
             sections["pipeline"].insert(0, "!VCtrl {? %s : 1}" % y if j % 2 == 0 else "!VEager {? %s : 1}" % y)
         elif p == "second_document":
             sections["_second"] = y
+        elif p == "root_tagged":
+            sections["_roottag"] = y.split(" ", 1)[0]
         elif p == "dupkey":
             # a duplicate key: the earlier value is shadowed by the later one, but it is there
             sections["__config_test"]["d%d" % j] = "{k: %s, k: 1}" % y
@@ -127,6 +129,9 @@ def render(doc, n, marker):
             sections["__config_test"]["o%d" % j] = "{<<: {k: %s}, k: 1}" % y
         elif p == "merge_value":
             sections["__config_test"]["m%d" % j] = "{<<: %s, b: 2}" % y
+    if sections.get("_roottag"):
+        # the tag sits on the ROOT mapping of an otherwise valid configuration
+        lines.append("--- " + sections["_roottag"])
     if sections["logging"]:
         lines.append("logging: " + sections["logging"])
     if sections["__config_test"]:
